@@ -309,7 +309,7 @@ def fkey(f):
     elif f.get('ctx') == 'inherent_impl':
         base = '<%s>::%s' % (f['self'], f['method'])
     else:
-        base = f['path']
+        base = f['path'] if f['kind'] not in ('Closure', 'InlineConst') else (f.get('parent') or f['path'])
     if f['kind'] in ('Closure', 'InlineConst'):
         tail = f['path'].rsplit('::', 1)[-1]
         # closure paths end with {closure#N}; keep the chain of closure ordinals
